@@ -22,7 +22,7 @@ import (
 )
 
 // ruleMore describes what was added to the exploration in the build phase.
-const ruleMore = "; texts cut after a drawn token and continued with text that cannot be scanned or with a token that cannot follow: the callbacks of everything shifted before must have fired; the injected error is plain, wraps a ParseError of its own, or is joined; evaluation results are tagged values, nil or integers"
+const ruleMore = "; large specifications (300 alternatives, 300 nested groups, 70 uses of every operator, 300 rules, 900 operands, 300 token declarations, 100 directives); texts cut after a drawn token and continued with text that cannot be scanned or with a token that cannot follow: the callbacks of everything shifted before must have fired; the injected error is plain, wraps a ParseError of its own, or is joined; evaluation results are tagged values, nil or integers"
 
 func TestMain(m *testing.M) { rec.Main(m, "C18") }
 
@@ -38,6 +38,8 @@ type input struct {
 	// mode broken: the text is cut after token FailAt-1 and continued with Tail
 	Tail    string `json:"tail,omitempty"`
 	Lexical bool   `json:"lexical,omitempty"`
+	// FailStep >= 0 (mode broken): the callback of that step fails as well
+	FailStep int `json:"fail_step"`
 }
 
 // injected errors: a plain one, one that wraps a parse error of its own below its top level (a callback may itself have
@@ -169,6 +171,14 @@ func checkParse(text string, failAt int) (reductions int, err error) {
 // have fired, in derivation order, exactly as for the complete text; after a lexical error nothing else may fire, before a
 // syntax error only reductions may follow. The parse must return an error.
 func checkBrokenTail(text string, k int, tail string, lexical bool) error {
+	return checkBrokenTailFailing(text, k, tail, lexical, -1)
+}
+
+// checkBrokenTailFailing: in addition the callback of step failAt (an index into the steps before the error in the text)
+// fails: the parse stops there and returns that error - the later error in the text is never reached. The same text is
+// then evaluated (ParseAndEvaluate): the evaluation callback fires once per reduction before the error, and an
+// error it returns at its failAt-th call comes back.
+func checkBrokenTailFailing(text string, k int, tail string, lexical bool, failAt int) error {
 	e, err := expect(text)
 	if err != nil {
 		return err
@@ -200,19 +210,80 @@ func checkBrokenTail(text string, k int, tail string, lexical bool) error {
 			return
 		}
 		n := 0
+		step := func() error {
+			if failAt >= 0 && len(got)-1 == failAt {
+				return injected(failAt)
+			}
+			return nil
+		}
 		rerr = p.Parse(func(tok *lexer.Token) error {
 			got = append(got, n)
 			n++
-			return nil
+			return step()
 		}, func(i int) error {
 			got = append(got, -1-i)
-			return nil
+			return step()
 		})
 	}); perr != nil {
 		return perr
 	}
 	if rerr == nil {
 		return fmt.Errorf("the text %q is no specification (it ends in %q after token %d), but Parse reports success", broken, tail, k-1)
+	}
+	if failAt >= 0 && failAt < len(want) {
+		if !errors.Is(rerr, injected(failAt)) && !strings.Contains(rerr.Error(), "injected callback failure") {
+			return fmt.Errorf("callback %d (before the error in the text) returned an error, but Parse returns a different one: %v\ntext: %q", failAt, rerr, broken)
+		}
+		if len(got) != failAt+1 {
+			return fmt.Errorf("callback %d failed, but %d callbacks fired in total\ntext: %q", failAt, len(got), broken)
+		}
+		want = want[:failAt+1]
+	}
+	// evaluation of the same text
+	{
+		wantRed := 0
+		for _, ev := range want {
+			if ev < 0 {
+				wantRed++
+			}
+		}
+		failRed := -1
+		if failAt >= 0 && wantRed > 0 {
+			failRed = failAt % wantRed
+		}
+		calls := 0
+		var eerr error
+		if perr := rec.Guard(func() {
+			p, err := ebnf.New("t.ebnf", strings.NewReader(broken))
+			if err != nil {
+				eerr = err
+				return
+			}
+			_, eerr = p.ParseAndEvaluate(func(i int, rhs []*lr.Value) (any, error) {
+				calls++
+				if calls-1 == failRed {
+					return nil, injected(failRed)
+				}
+				return calls, nil
+			})
+		}); perr != nil {
+			return perr
+		}
+		switch {
+		case eerr == nil:
+			return fmt.Errorf("the text %q is no specification, but ParseAndEvaluate reports success", broken)
+		case failRed >= 0:
+			if !errors.Is(eerr, injected(failRed)) && !strings.Contains(eerr.Error(), "injected callback failure") {
+				return fmt.Errorf("evaluation call %d (before the error in the text) returned an error, but ParseAndEvaluate returns a different one: %v\ntext: %q", failRed, eerr, broken)
+			}
+			if calls != failRed+1 {
+				return fmt.Errorf("evaluation call %d failed, but %d calls were made\ntext: %q", failRed, calls, broken)
+			}
+		case lexical && failAt < 0 && calls != wantRed:
+			return fmt.Errorf("the text ends in %q after token %d: %d reductions precede the error, but the evaluation callback was called %d times\ntext: %q", tail, k-1, wantRed, calls, broken)
+		case !lexical && failAt < 0 && calls < wantRed:
+			return fmt.Errorf("the text ends in %q after token %d: %d reductions precede the error, but the evaluation callback was called only %d times\ntext: %q", tail, k-1, wantRed, calls, broken)
+		}
 	}
 	for i := range want {
 		if i >= len(got) {
@@ -570,9 +641,14 @@ func TestCallbacks(t *testing.T) {
 			if lexical {
 				cls = "broken_tail_lexical"
 			}
-			rec.Case(fmt.Sprintf("%s|broken|%d|%s", text, k, tail), len(e.events) >= 20 && k > 1 && k < len(e.toks), cls)
-			if cerr := checkBrokenTail(text, k, tail, lexical); cerr != nil {
-				rec.Fail(t, "callbacks", input{Text: text, Mode: "broken", FailAt: k, Tail: tail, Lexical: lexical}, "%v", cerr)
+			failStep := -1
+			if rapid.Bool().Draw(t, "callbackFailsBeforeTheError") {
+				failStep = rapid.IntRange(0, 2*k).Draw(t, "failStep")
+				cls += "_and_failing_callback"
+			}
+			rec.Case(fmt.Sprintf("%s|broken|%d|%s|%d", text, k, tail, failStep), len(e.events) >= 20 && k > 1 && k < len(e.toks), cls)
+			if cerr := checkBrokenTailFailing(text, k, tail, lexical, failStep); cerr != nil {
+				rec.Fail(t, "callbacks", input{Text: text, Mode: "broken", FailAt: k, Tail: tail, Lexical: lexical, FailStep: failStep}, "%v", cerr)
 			}
 			return
 		}
@@ -621,6 +697,50 @@ func TestCallbacks(t *testing.T) {
 	})
 }
 
+// TestLargeSpecifications: hundreds of alternatives, nested groups, repetitions, operands, rules, declarations and
+// directives (gen.BigModels): the callbacks fire in derivation order with the right values however deep the stacks get.
+func TestLargeSpecifications(t *testing.T) {
+	rec.Begin(t)
+	rec.Rule(rule + ruleMore)
+	if rec.Shard() != 0 {
+		t.Skip("seed independent: shard 0 only")
+	}
+	for _, m := range gen.BigModels() {
+		text, _ := gen.BigText(m)
+		e, err := expect(text)
+		if err != nil {
+			t.Fatalf("harness: %v", err)
+		}
+		nred := 0
+		for _, ev := range e.events {
+			if ev < 0 {
+				nred++
+			}
+		}
+		fail := func(mode string, failAt int, cerr error) {
+			if cerr != nil {
+				rec.Fail(t, "callbacks", input{Text: text, Mode: mode, FailAt: failAt}, "large specification %s (%d tokens, %d reductions): %v", m.Name, len(e.toks), nred, cerr)
+			}
+		}
+		rec.Case(text, true, "large_specification")
+		_, cerr := checkParse(text, -1)
+		fail("parse", -1, cerr)
+		fail("evaluate", -1, checkEvaluate(text, -1))
+		for _, at := range []int{len(e.events) / 2, len(e.events) - 2} {
+			_, cerr := checkParse(text, at)
+			fail("parse", at, cerr)
+		}
+		for _, at := range []int{nred / 2, nred - 1} {
+			fail("evaluate", at, checkEvaluate(text, at))
+		}
+		for _, k := range []int{len(e.toks) / 2, len(e.toks) - 1} {
+			if cerr := checkBrokenTail(text, k, " ~", true); cerr != nil {
+				rec.Fail(t, "callbacks", input{Text: text, Mode: "broken", FailAt: k, Tail: " ~", Lexical: true}, "large specification %s: %v", m.Name, cerr)
+			}
+		}
+	}
+}
+
 func TestReplay(t *testing.T) {
 	if !rec.IsReplay() {
 		t.Skip("not in replay mode")
@@ -632,7 +752,11 @@ func TestReplay(t *testing.T) {
 	}
 	var err error
 	if in.Mode == "broken" {
-		err = checkBrokenTail(in.Text, in.FailAt, in.Tail, in.Lexical)
+		fs := in.FailStep
+		if fs == 0 && !strings.Contains(string(raw), "fail_step") {
+			fs = -1
+		}
+		err = checkBrokenTailFailing(in.Text, in.FailAt, in.Tail, in.Lexical, fs)
 	} else if in.Mode == "evaluate" {
 		err = checkEvaluate(in.Text, in.FailAt)
 	} else {
